@@ -92,6 +92,15 @@ _IMMUTABLE = (str, int, float, bool, bytes, type(None), type, BaseException)
 
 def _reach(x, out, seen):
     """Collect ids of mutable objects reachable from x."""
+    if isinstance(x, BaseException):
+        # error objects are shared between copies by design ("used as immutables"): not aliasing themselves, but
+        # transparent - a block or list carried BY an error object is shared state like any other
+        if id(x) in seen:
+            return
+        seen.add(id(x))
+        for v in list(getattr(x, "__dict__", {}).values()) + list(getattr(x, "args", ())):
+            _reach(v, out, seen)
+        return
     if isinstance(x, _IMMUTABLE):
         return
     i = id(x)
